@@ -278,6 +278,14 @@ func genTreeScenario(seed uint64, o treeOpts) *Scenario {
 		}
 		// terminator
 		switch {
+		case i == failing && i > 0 && r.P(1, 4):
+			// REVERT with a well-formed Error(string) payload: selector 08c379a0, offset 0x20, length 4, "nope"
+			p.M = append(p.M,
+				Macro{K: "op", Op: "MSTORE", A: []string{"0x0", "0x08c379a000000000000000000000000000000000000000000000000000000000"}},
+				Macro{K: "op", Op: "MSTORE", A: []string{"0x4", "0x20"}},
+				Macro{K: "op", Op: "MSTORE", A: []string{"0x24", "0x4"}},
+				Macro{K: "op", Op: "MSTORE", A: []string{"0x44", "0x6e6f706500000000000000000000000000000000000000000000000000000000"}},
+				Macro{K: "term", Op: "REVERT", A: []string{"0x0", "0x64"}})
 		case i == failing && i > 0:
 			p.M = append(p.M, pick(r, []Macro{{K: "term", Op: "REVERT", A: []string{"0x0", "0x20"}}, {K: "term", Op: "INVALID"},
 				{K: "term", Op: "REVERT", A: []string{"0x0", "0x0"}}, {K: "raw", Data: "0x5050"}}))
